@@ -35,6 +35,52 @@ fn replay(set: u8, seqs: &[&[u8]], expected: &str, got: &str) -> J {
 }
 
 pub fn run<D: Dec>(rep: &mut Report) {
+    // ---- pairing on a decoder that has been through a very long run of one thing (soak_checkpoints): a key's make form must
+    //      still be a press and its break form the release of the same key, exactly as on a fresh decoder
+    {
+        let kmax: u32 = if light() { 17 } else if rep.thorough() { 26 } else { 24 };
+        let r = ref_for(D::SET);
+        let typist = Typist::new(D::SET, &r);
+        let pairs: Vec<(Vec<u8>, Vec<u8>)> = typist.make.iter().cloned().zip(typist.brk.iter().cloned()).enumerate().filter(|(i, _)| i % 7 == 0).map(|(_, p)| p).collect();
+        let run = |d0: &D, seq: &[u8]| -> Option<Res> {
+            guarded(|| {
+                let mut d = d0.clone();
+                let mut last = Ok(None);
+                for b in seq {
+                    last = d.advance_state(*b);
+                }
+                last
+            })
+            .ok()
+        };
+        let points = soak_checkpoints::<D>(kmax);
+        let mut n = 0u64;
+        'outer: for sp in points.iter() {
+            for (m, b) in pairs.iter() {
+                let mut mb = m.clone();
+                mb.extend(b);
+                let fresh = D::fresh();
+                for (form, seq) in [("make", m), ("make+break", &mb)] {
+                    n += 1;
+                    let (got, want) = (run(&sp.d, seq), run(&fresh, seq));
+                    if got != want {
+                        let show = |x: &Option<Res>| x.as_ref().map(res_str).unwrap_or_else(|| "PANIC".into());
+                        rep.violate(
+                            format!("C19|{}|after-soak|unit=[{}]|{}=[{}]|want={}|got={}", set_name(D::SET), hex_bytes(&sp.unit), form, hex_bytes(seq), show(&want), show(&got)),
+                            format!(
+                                "{}: {} (after [{}]): after {} repetitions of [{}] the {} form [{}] decodes to {}; on a fresh decoder it is {} – press and release are no longer paired",
+                                set_name(D::SET), sp.what, hex_bytes(&sp.pre), sp.n, hex_bytes(&sp.unit), form, hex_bytes(seq), show(&got), show(&want)
+                            ),
+                            J::obj().with("kind", J::s("checkpointed-soak")).with("set", J::u(D::SET as u64)).with("pre_hex", J::s(hex_bytes(&sp.pre))).with("unit_hex", J::s(hex_bytes(&sp.unit))).with("repetitions", J::u(sp.n)),
+                        );
+                        break 'outer;
+                    }
+                }
+            }
+        }
+        rep.evaluations += n;
+        rep.count(&format!("{}_pairings_checked_at_soak_checkpoints", set_name(D::SET)), n);
+    }
     let set = D::SET;
     let mut downs: BTreeMap<KeyCode, Vec<Vec<u8>>> = BTreeMap::new();
     let mut ups: BTreeMap<KeyCode, Vec<Vec<u8>>> = BTreeMap::new();
